@@ -984,7 +984,8 @@ def classify_gate(C, b, fbb):
                 # (accessors / helpers are looked through: `req.total_msat()` is what it returns)
                 e1 = strip(mm.inline_pure(C.F, X, ea))
                 fnames = {x[1] for x in walk(e1) if x[0] == "field" and x[1] != "0"}
-                ok_a = "total_msat" in fnames and fnames <= {"total_msat", "forward_msat", "onion"} and not any(x[0] == "call" and x[1].startswith("core::num::") for x in walk(e1))
+                ok_a = "total_msat" in fnames and fnames <= {"total_msat", "forward_msat", "onion"} and not any(x[0] == "call" and x[1].startswith("core::num::") for x in walk(e1)) \
+                    and not any(x[0] in ("bin", "un") for x in walk(e1)) and not any(a[0] == "const" for a in alts(e1))
                 sa = show(e1)
                 ok_b = "amount_msat" in sb and "trampoline" in sb.lower() or "TrampolineInfo::amount_msat" in sb
                 ok_p = "routing_policy" in show(strip(X.operand(b, c.call.args[0])))
